@@ -40,18 +40,6 @@ def reduce2 (a b : Status) : Status := reduceStatuses [a, b]
 /-- `BaseStep._get_status(status)`; `outEmpty` = some output port has an empty `token_list` -/
 def getStatus (status : Status) (outEmpty : Bool) : Status := Status.ofCode (Gen.getStatusGen status.code outEmpty)
 
-/-- what the source says, spelled out (checked by the kernel against the generated definitions) -/
-theorem reduce2_table : ∀ a b : Status, reduce2 a b =
-    (if a = .failed then .failed else if a = .cancelled then .cancelled
-     else if b = .failed then .failed else if b = .cancelled then .cancelled
-     else if a = .recovered ∨ b = .recovered then .recovered
-     else if a = .skipped ∧ b = .skipped then .skipped else .completed) := by
-  intro a b; cases a <;> cases b <;> decide
-
-theorem getStatus_table : ∀ (s : Status) (e : Bool), getStatus s e =
-    (if s = .failed then s else if s = .recovered then .completed else if e then .skipped else s) := by
-  intro s e; cases s <;> cases e <;> decide
-
 def Status.render : Status → String
   | .skipped => "SKIPPED" | .completed => "COMPLETED" | .failed => "FAILED"
   | .cancelled => "CANCELLED" | .recovered => "RECOVERED"
